@@ -29,8 +29,8 @@ func main() {
 	// ---------- runtime profiling stuff -end- ---------
 
 	scanner := bufio.NewScanner(os.Stdin)
-	for !engine.Quit {
-		scanner.Scan()
+	// stop on `quit` and when the input stream ends (Scan returns false on EOF or on a read error)
+	for !engine.Quit && scanner.Scan() {
 		engine.ParseInputLine(scanner.Text())
 	}
 }
